@@ -181,7 +181,8 @@ sp_ctrsv(char *uplo, char *trans, char *diag, SuperMatrix *L,
 		    for (i = 0; i < nrow; ++i, ++iptr) {
 			irow = L_SUB(iptr);
 			c_sub(&x[irow], &x[irow], &work[i]); /* Scatter */
-			work[i] = comp_zero;
+			/* comp_zero has been used as scratch above: it is not zero any more */
+			work[i].r = work[i].i = 0.0;
 
 		    }
 	 	}
